@@ -20,11 +20,11 @@ def parse_text(text):
     i = 0
     while i < len(lines):
         l = lines[i]
-        m = re.match(r'^(ERROR|FAIL|UNEXPECTED SUCCESS): t(\d+)$', lines[i + 1]) if l == SEP1 and i + 2 < len(lines) else None
+        m = re.match(r'^(ERROR|FAIL|UNEXPECTED SUCCESS): (?:t(\d+))?$', lines[i + 1]) if l == SEP1 and i + 2 < len(lines) else None
         if l == 'Tests running...':
             out.append('running')
         elif m and lines[i + 2] == SEP2:
-            out.append(['sect', LABEL[m.group(1)], int(m.group(2))])
+            out.append(['sect', LABEL[m.group(1)], R.EMPTY_ID if m.group(2) is None else int(m.group(2))])
             i += 2
         elif re.match(r'^Ran (\d+) tests? in \d+\.\d{3}s$', l):
             n = int(l.split()[1])
@@ -82,7 +82,8 @@ class C04(Prop):
             'MultiTestResult / ExtendedToStreamDecorator(+StreamFailFast) over genuine testtools.TestResult / TextTestResult leaves with failfast '
             'set or not on each leaf before wrapping; in 35% of the graphs also recording results of the 2.6 / 2.7 / Twisted flavours behind an '
             'ExtendedToOriginalDecorator, half of the 2.6 / Twisted ones with a failfast attribute assigned on them before or after the objects '
-            'above were built; 8% of the cases: failfast assigned on a ThreadsafeForwardingResult (or a TestResultDecorator / Tagger over it) that is '
+            'above were built; 12% of the graphs use ExtendedToStreamDecorator(StreamFailFast(callback)) leaves (the stream target is itself a StreamFailFast, its '
+            'callback counted); falsy-but-legal values: test 7 has the empty id, a third of the skip reasons are empty; 8% of the cases: failfast assigned on a ThreadsafeForwardingResult (or a TestResultDecorator / Tagger over it) that is '
             'reported to directly, over a 2.7 / Twisted style or stream target, the first bad outcome mostly an unexpected success; histories of 0-6 tests x 1-2 runs, outcomes as exc_info / details / plain, failfast assigned '
             'on the outer object and stop() at random positions, 10% damaged histories; 30% of the cases also run testtools.run (TestProgram, in '
             'process) on a module of 0-6 real TestCases with chosen outcomes, with and without -f. thorough adds every history of <= 2 tests '
@@ -104,7 +105,7 @@ class C04(Prop):
                 'ThreadsafeForwardingResult, MultiTestResult over TestResult / TextTestResult leaves and all call histories: wasSuccessful() '
                 'is false exactly when an error, failure or unexpected success was reported since the last startTestRun; every '
                 'TextTestResult writes banner, one section per problem, the number of tests started and OK / FAILED(k) in agreement with it; '
-                'failfast read through any stack is what was set on the result(s) it reads through to - before or after wrapping, also as an attribute assigned on a 2.6 / Twisted style result behind its ExtendedToOriginalDecorator; with failfast reading true (also on a TestResultDecorator / Tagger reported to directly, on a directly used ThreadsafeForwardingResult, D15, and over old-flavour results: then shouldStop is the adapter\'s reading, its own flag if the result has none) the first bad outcome sets shouldStop, which then stays set until startTestRun, and (own results, stream pipelines included: StreamFailFast calls the decorator\'s stop for error / failure / unexpected success only) is never set earlier (only after stop() or a bad outcome with failfast set somewhere); stop() on any node sets its shouldStop (every graph, also the stream decorator\'s own) and reaches every result below it; wrapping - and every startTestRun on any wrapper - leaves the failfast of every result alone (D14), and each result by itself '
+                'failfast read through any stack is what was set on the result(s) it reads through to - before or after wrapping, also as an attribute assigned on a 2.6 / Twisted style result behind its ExtendedToOriginalDecorator; with failfast reading true (also on a TestResultDecorator / Tagger reported to directly, on a directly used ThreadsafeForwardingResult, D15, and over old-flavour results: then shouldStop is the adapter\'s reading, its own flag if the result has none) the first bad outcome sets shouldStop, which then stays set until startTestRun, and (own results, stream pipelines included: StreamFailFast calls the decorator\'s stop for error / failure / unexpected success only) is never set earlier (only after stop() or a bad outcome with failfast set somewhere); a StreamFailFast handed to the stream decorator as its target calls its own callback once per bad outcome and has no part in the decorator\'s failfast; stop() on any node sets its shouldStop (every graph, also the stream decorator\'s own) and reaches every result below it; wrapping - and every startTestRun on any wrapper - leaves the failfast of every result alone (D14), and each result by itself '
                 'stops exactly by its own setting or by a fail-fast ExtendedToOriginalDecorator above it; exit '
                 'status and summary of testtools.run for a module of test cases with and without -f.  The hand-written model is tied to '
                 'the code by a differential check (random + bounded-exhaustive graphs x histories, TestProgram run in process).',
@@ -122,7 +123,8 @@ class C04(Prop):
     def observe(self, g):
         ff = getattr(g.root, 'failfast', None)
         return [bool(g.root.wasSuccessful()), bool(g.root.shouldStop), None if ff is None else some(bool(ff)),
-                [bool(getattr(l, 'shouldStop', False)) for l in g.leaves], [bool(getattr(l, 'failfast', False)) for l in g.leaves]]
+                [bool(getattr(l, 'shouldStop', False)) for l in g.leaves], [bool(getattr(l, 'failfast', False)) for l in g.leaves],
+                [c[0] for c in g.cbs]]
 
     def run_prog(self, ff, kinds):
         from testtools.run import TestProgram
@@ -176,7 +178,7 @@ class C04(Prop):
                 elif R.can_done(shape):
                     h.append(['done'])
         tid = 0
-        need_run = 'text' in kinds or 'e2s' in kinds
+        need_run = 'text' in kinds or 'e2s' in kinds or 'sff' in kinds
         if not need_run:
             noise(0.25)
         for run in range(rng.choice([1, 1, 2])):
@@ -187,7 +189,7 @@ class C04(Prop):
                 tid += 1
                 kind = rng.choice(R.KINDS + ['success', 'skip'])
                 arg = rng.choice([None, ['details', []]]) if kind in ('success', 'uxsuccess') else \
-                    rng.choice([['reason', [114]], ['details', []]]) if kind == 'skip' else rng.choice([['exc', 'real'], ['details', []]])
+                    rng.choice([['reason', [114]], ['reason', []], ['details', []]]) if kind == 'skip' else rng.choice([['exc', 'real'], ['details', []]])
                 h.append(['startTest', tid])
                 noise(0.08)
                 h.append(['add', kind, tid, arg])
@@ -209,8 +211,11 @@ class C04(Prop):
         inner = ('etod', 'deco', 'tagger', 'tfr', 'tfr', 'multi', 'multi', 'multi', 'e2s')
         leaves = ('tt', 'tt', 'text')
         d = rng.choice([0, 1, 1, 2, 2, 2, 3, 3])
-        if rng.random() < 0.35:
+        r = rng.random()
+        if r < 0.35:
             leaves = ('tt', 'tt', 'text', 'old', 'old')       # results of the old flavours behind their adapters
+        elif r < 0.47:
+            leaves = ('tt', 'sff', 'sff', 'text')             # a StreamFailFast as the stream target of an ExtendedToStreamDecorator
         shape = R.gen_shape(rng, d, leaves=leaves, inner=inner, ff=rng.random() < 0.7, fattr=0.6)
         if rng.random() < 0.15:
             # a multiplexer over results with different failfast settings, the failfast one usually not first
@@ -234,7 +239,7 @@ class C04(Prop):
         count an unexpected success as unsuccessful; the first bad outcome of the run is mostly an unexpected success"""
         F = ['tt', False]
         target = rng.choice([['sink', 'py27'], ['sink', 'py27'], ['sink', 'twisted'], ['fsink', rng.random() < 0.5, rng.random() < 0.3, 'twisted'],
-                             ['e2s', ['etod', rng.choice([F, ['sink', 'py27'], ['text', False]])]], ['sink', 'py26'], F,
+                             ['e2s', ['etod', rng.choice([F, ['sink', 'py27'], ['text', False]])]], ['sink', 'py26'], F, ['sff'],
                              ['multi', ['etod', ['sink', 'py27']], ['etod', F]]])
         shape = ['tfr', ['etod', target]]
         r = rng.random()
@@ -253,7 +258,7 @@ class C04(Prop):
                 [rng.choice(R.KINDS) for _ in range(rng.choice([0, 1, 2]))]:
             tid += 1
             arg = rng.choice([None, ['details', []]]) if k in ('success', 'uxsuccess') else \
-                rng.choice([['reason', [114]], ['details', []]]) if k == 'skip' else rng.choice([['exc', 'real'], ['details', []]])
+                rng.choice([['reason', [114]], ['reason', []], ['details', []]]) if k == 'skip' else rng.choice([['exc', 'real'], ['details', []]])
             h += [['startTest', tid], ['add', k, tid, arg], ['stopTest', tid]]
             if rng.random() < 0.1:
                 h.append(R.gen_tags_call(rng))
@@ -270,7 +275,8 @@ class C04(Prop):
                   ['multi', ['etod', ['fsink', True, True, 'py26']], ['etod', F]],
                   ['tfr', ['etod', ['fsink', False, True, 'twisted']]], ['deco', ['etod', ['fsink', True, False, 'py26']]],
                   ['tagger', [1], [], T], ['etod', ['sink', 'py27']],
-                  ['tfr', ['etod', ['sink', 'py27']]], ['deco', ['tfr', ['etod', ['sink', 'twisted']]]], ['tfr', ['etod', ['e2s', ['etod', F]]]]]
+                  ['tfr', ['etod', ['sink', 'py27']]], ['deco', ['tfr', ['etod', ['sink', 'twisted']]]], ['tfr', ['etod', ['e2s', ['etod', F]]]],
+                  ['sff'], ['etod', ['sff']], ['multi', ['etod', ['sff']], ['etod', F]]]
         outs = [(k, None if k in ('success', 'uxsuccess') else ['reason', [114]] if k == 'skip' else ['exc', 'real']) for k in R.KINDS]
         for s in shapes:
             for ffpos in [None, 0, 1]:
@@ -349,7 +355,7 @@ class C04(Prop):
             for i in range(len(ks)):
                 yield [shape, hist, some([prog[1][0], ks[:i] + ks[i + 1:]])]
         for h in R.shrink_hist(hist):
-            if ('text' in kinds or 'e2s' in kinds) and not R.starts_run(h):
+            if ('text' in kinds or 'e2s' in kinds or 'sff' in kinds) and not R.starts_run(h):
                 continue
             yield [shape, h, prog]
         for s in R.shrink_shape(shape):
